@@ -200,8 +200,15 @@ def c02_post(ctx, dtw, fname, ndim, cstyle, label="C02"):
         if want == inf:
             ctx.count("c02_both_should_be_inf")
         if not engines_agree(result, want, ctx):
+            extra = {}
+            if not cstyle and pykw.get("max_length_diff") == 0 and pykw.get("max_length_diff") is not None:
+                # model of known finding KF-C02-1: the C settings cannot express "limit 0" (0 encodes "off")
+                try:
+                    extra["python_with_the_limit_off"] = float(py_reference(dtw, s1, s2, dict(pykw, max_length_diff=None), nd))
+                except Exception:
+                    pass
             ctx.violation("engine-mismatch", prop=label, fn=fname, s1=l1, s2=l2, settings=dict(settings_key(pykw)),
-                          c=float(result), python=float(want))
+                          c=float(result), python=float(want), **extra)
         elif len(ctx.samples) < 3 and nontriv and len(pykw) >= 2:
             ctx.sample(dict(fn=fname, s1=l1, s2=l2, settings=dict(settings_key(pykw)), c=float(result),
                             python=float(want)))
